@@ -131,19 +131,33 @@ def tables(p):
     for i, r in enumerate(p.rules):
         rules.append(dict(id=i, origin=r.origin.name, exp=[(s.is_term, s.name) for s in r.expansion], order=r.order,
                           prio=r.options.priority, name=str(r.alias or r.options.template_source or r.origin.name)))
-    terms = {t.name: dict(prio=t.priority, value=t.pattern.value) for t in p.terminals}
+    terms = {t.name: dict(prio=t.priority, value=t.pattern.value, regexp=t.pattern.to_regexp(),
+                          is_re=type(t.pattern).__name__ == 'PatternRE') for t in p.terminals}
     return rules, terms
 
 
-def gen_ignore_grammar(rng):
+def gen_ignore_grammar(rng, regexps=None):
     """Grammar for the dynamic lexers whose %ignore terminals overlap its own terminals: string literals over
     {a,b} as terminals, one to three %ignore'd literals of different lengths chosen among strings that are a
     prefix of / a suffix of / equal to terminals of the grammar, alternatives that can consume the ignorable
     text inside a symbol (A | AB with "b" ignored).  Returns (grammar text, [ignored strings])."""
     pool = [('A', 'a'), ('B', 'b'), ('AB', 'ab'), ('BA', 'ba'), ('AA', 'aa'), ('BB', 'bb'), ('ABA', 'aba'),
             ('BAB', 'bab')]
-    k = rng.randint(3, 5)
+    if regexps is None:
+        regexps = rng.random() < 0.55
+    k = rng.randint(2, 3) if regexps else rng.randint(3, 5)
     chosen = [pool[0], pool[1]] + rng.sample(pool[2:], k - 2)
+    # regexp terminals (small fragment: repeated groups, alternations of different lengths, optional suffixes,
+    # character classes; none matches the empty string, several are not prefix-closed): (name, regexp, samples)
+    repool = [('RAB', '(ab)+', ['ab', 'abab']), ('ROB', 'a?b', ['b', 'ab']), ('RALT', 'ab|a', ['a', 'ab']),
+              ('RALT2', 'a|ab', ['a', 'ab']), ('RAP', 'a+', ['a', 'aa']), ('RCB', '[ab]b?', ['a', 'bb']),
+              ('RBA', 'a(ba)*', ['a', 'aba']), ('RBP', 'b+a?', ['b', 'bba']), ('RGB', '(a|b)b', ['ab', 'bb']),
+              ('RNUM', 'a+(ba+)?', ['a', 'aba']), ('RQ', 'a{1,2}b?', ['a', 'aab']), ('RABC', 'aba|a', ['a', 'aba'])]
+    regex = {}
+    if regexps:
+        for nm, rx, samples in rng.sample(repool, rng.randint(2, 3)):
+            regex[nm] = (rx, samples)
+            chosen.append((nm, samples[-1]))
     terms = [n for n, _ in chosen]
     nts = ['start', 'a', 'b'][:rng.randint(2, 3)]
     lines = []
@@ -181,15 +195,22 @@ def gen_ignore_grammar(rng):
         pr = '.%d' % rng.choice([-1, 1, 2]) if rng.random() < 0.3 else ''
         lines.append('%s%s: %s' % (nt, pr, ' | '.join(alts2)))
     for n, v in chosen:
-        lines.append('%s: "%s"' % (n, v))
+        if n in regex:
+            lines.append('%s: /%s/' % (n, regex[n][0]))
+        else:
+            lines.append('%s: "%s"' % (n, v))
     # ignored literals: overlap the terminals (prefix / suffix / whole), different lengths
     cands = set()
     for _, v in chosen:
         for l in range(1, len(v) + 1):
             cands.add(v[:l])
             cands.add(v[-l:])
+    for rx, samples in regex.values():
+        for v in samples:
+            cands.add(v[:1])
+            cands.add(v[-1:])
     cands = sorted(cands)
-    ign = rng.sample(cands, min(len(cands), rng.choice([1, 1, 2, 2, 3])))
+    ign = rng.sample(cands, min(len(cands), rng.choice([0, 1, 1, 2, 2, 3] if regex else [1, 1, 2, 2, 3])))
     for v in ign:
         lines.append('%%ignore "%s"' % v)
     return '\n'.join(lines) + '\n', ign
@@ -212,10 +233,35 @@ def gap_closure(text, ignores):
     return reach
 
 
-def enumerate_derivations_ignore(rules, terms, start, text, ignores, cap=400):
+def token_ends(terms, name, text, p, scanner='ideal'):
+    """end positions of the tokens of terminal `name` starting at p.
+    'ideal': every span the terminal's regexp matches fully (re.fullmatch on every candidate span);
+    'dynamic': what xearley's scanner considers - the regexp engine's match at p only;
+    'dynamic_complete': that match and, for every proper truncation of it, the engine's match of the truncation."""
+    import re
+    rx = terms[name].get('_rx')
+    if rx is None:
+        rx = terms[name]['_rx'] = re.compile(terms[name].get('regexp') or re.escape(terms[name]['value']))
+    if scanner == 'ideal':
+        return [e for e in range(p + 1, len(text) + 1) if rx.fullmatch(text, p, e)]
+    m = rx.match(text, p)
+    if not m or m.end() == p:
+        return []
+    ends = {m.end()}
+    if scanner == 'dynamic_complete':
+        s_ = m.group(0)
+        for j in range(1, len(s_)):
+            m2 = rx.match(s_[:-j])
+            if m2 and m2.end() > 0:
+                ends.add(p + m2.end())
+    return sorted(ends)
+
+
+def enumerate_derivations_ignore(rules, terms, start, text, ignores, cap=400, scanner='ideal'):
     """Character-level derivations of `start` over text for the dynamic lexers with %ignore: the tokens tile the
     text in order, ignored matches may only lie between tokens (before the first, after the last); every token
-    span is matched by its (string literal) terminal.  Tree = ('N', rule_id, children) | ('T', term, text, pos).
+    span is matched by its terminal (string literal or regexp; see token_ends for `scanner`).
+    Tree = ('N', rule_id, children) | ('T', term, text, pos).
     Canonical spans: a symbol ends where its last token ends.  Returns (list, cyclic)."""
     n = len(text)
     reach = gap_closure(text, ignores)
@@ -226,11 +272,10 @@ def enumerate_derivations_ignore(rules, terms, start, text, ignores, cap=400):
 
     def term_from(name, i):
         """tokens of terminal `name` after an optional gap starting at i: [(tree, end)]"""
-        v = terms[name]['value']
         out = []
         for p in reach[i]:
-            if v and text.startswith(v, p):
-                out.append((('T', name, v, p), p + len(v)))
+            for e in token_ends(terms, name, text, p, scanner):
+                out.append((('T', name, text[p:e], p), e))
         return out
     der = set()
 
@@ -347,8 +392,8 @@ def tiling_problem(d, text, terms, ignores):
             return 'text %r before token %s %r is neither a token nor ignorable' % (text[pos:p], name, txt)
         if text[p:p + len(txt)] != txt:
             return 'token %s %r is not the input slice [%d,%d)' % (name, txt, p, p + len(txt))
-        if name in terms and terms[name]['value'] != txt:
-            return 'token %s %r is not matched by its terminal %r' % (name, txt, terms[name]['value'])
+        if name in terms and p + len(txt) not in token_ends(terms, name, text, p, 'ideal'):
+            return 'token %s %r is not matched by its terminal %r' % (name, txt, terms[name].get('regexp'))
         pos = p + len(txt)
     if len(text) not in reach[pos]:
         return 'trailing text %r is neither a token nor ignorable' % text[pos:]
